@@ -36,7 +36,7 @@ Lemma check_ok last cur b : okstart last cur = true -> check last cur b = true.
 Proof.
   destruct last as [a|]; [|reflexivity]. unfold okstart, check. intros H.
   apply andb_prop in H. destruct H as [Hc Hs].
-  assert (cns_clash a b = false) as -> by (destruct a as [| |[]]; try reflexivity; discriminate).
+  assert (cns_clash a b = false) as -> by (destruct a as [| |[]|]; try reflexivity; discriminate).
   cbn [negb andb]. apply orb_prop in Hs. destruct Hs as [Hs|Hs]; [|rewrite Hs; apply orb_true_r].
   unfold unsticky in Hs. apply andb_prop in Hs. destruct Hs as [H1 H2].
   apply negb_true_iff in H1, H2. unfold sticky. now rewrite H1, H2.
@@ -44,7 +44,7 @@ Qed.
 Lemma check_ty last cur s : okstart_ty last cur = true -> prefix_cns s = false -> check last cur (AWord s) = true.
 Proof.
   destruct last as [a|]; [|reflexivity]. unfold okstart_ty, check. intros Hs Hp.
-  assert (cns_clash a (AWord s) = false) as -> by (destruct a as [| |[]]; try reflexivity; exact Hp).
+  assert (cns_clash a (AWord s) = false) as -> by (destruct a as [| |[]|]; try reflexivity; exact Hp).
   cbn [negb andb]. apply orb_prop in Hs. destruct Hs as [Hs|Hs]; [|rewrite Hs; apply orb_true_r].
   unfold unsticky in Hs. apply andb_prop in Hs. destruct Hs as [H1 H2].
   apply negb_true_iff in H1, H2. unfold sticky. now rewrite H1, H2.
@@ -72,7 +72,7 @@ Definition inert (y : sym) : bool := negb (op_start (ASym y)).
 Lemma robust_sym y l : inert y = true -> safe_from (Some (ASym y)) None l = true -> robust (IAtom (ASym y) :: l).
 Proof.
   intros Hy Hl last cur. rewrite safe_step, Hl, andb_true_r. destruct last as [a|]; [|reflexivity].
-  unfold check. assert (cns_clash a (ASym y) = false) as -> by (destruct a as [| |[]]; reflexivity).
+  unfold check. assert (cns_clash a (ASym y) = false) as -> by (destruct a as [| |[]|]; reflexivity).
   unfold inert in Hy. apply negb_true_iff in Hy. unfold sticky. rewrite Hy. cbn [wordy]. now rewrite !andb_false_r.
 Qed.
 Lemma robust_sep k l : robust l -> robust (ISep k :: l).
@@ -84,7 +84,7 @@ Proof.
   assert (sep_join cur KSome = Some KSome) as -> by (destruct cur as [[]|]; reflexivity).
   destruct last as [a|]; [|reflexivity]. unfold check.
   assert (cns_clash a b = false) as ->.
-  { destruct a as [| |[]]; try reflexivity. destruct b; try reflexivity. cbn in *. now apply negb_true_iff. }
+  { destruct a as [| |[]|]; try reflexivity. destruct b; try reflexivity. cbn in *. now apply negb_true_iff. }
   cbn. apply orb_true_r.
 Qed.
 
@@ -354,17 +354,22 @@ Qed.
 Lemma St_if s a b th el ty :
   St a -> match b with Some b' => St b' | None => True end -> St th -> St el -> St (FIfC s a b th el ty).
 Proof.
-  intros Ha Hb Hth Hel acc Hacc last cur Hs. cbn [d_term]. unfold word, dsym. cbn [flat_acc].
-  rewrite safe_step, check_ok by assumption. conc.
+  intros Ha Hb Hth Hel acc Hacc last cur Hs. cbn [d_term]. unfold word, dsym.
   assert (Rbr : robust (flat_acc (block c (d_term c th))
                   (ISep KSome :: IAtom (AWord "else") :: ISep KSome :: flat_acc (block c (d_term c el)) acc))).
   { apply robust_block; [assumption|].
     apply robust_some_atom; [reflexivity|]. rewrite safe_sep.
     apply robust_block; assumption. }
-  apply Ha; [|reflexivity]. apply robust_some_atom; [reflexivity|]. rewrite safe_sep.
   destruct b as [b|].
-  - apply Hb; [now apply robust_sep | reflexivity].
-  - cbn [flat_acc]. conc. apply Rbr.
+  - (* general form: [// newline] cmp [-] b *)
+    destruct (ends_zero a), (starts_zero b); cbn [flat_acc]; rewrite safe_step, check_ok by assumption; conc;
+      (apply Ha; [|reflexivity]); apply robust_some_atom; try reflexivity; rewrite safe_sep;
+      repeat (rewrite safe_step; conc); try rewrite safe_sep;
+      repeat (rewrite safe_step; conc);
+      (apply Hb; [now apply robust_sep | reflexivity]).
+  - destruct (ends_zero a); cbn [flat_acc]; rewrite safe_step, check_ok by assumption; conc.
+    + (* zero on the left *) apply Ha; [now apply robust_sep | reflexivity].
+    + apply Ha; [|reflexivity]. apply robust_some_atom; [reflexivity|]. rewrite safe_sep. conc. apply Rbr.
 Qed.
 Lemma St_print nl a next ty : St a -> St next -> St (FPrint nl a next ty).
 Proof.
